@@ -56,7 +56,9 @@ def prune_caches(keep=8):
   if not os.path.isdir(base):
     return
   for build in ("rel", "dbg"):
-    ds = [os.path.join(base, d) for d in os.listdir(base) if d.startswith(f"wp-{build}-")]
+    # never the cache of the tree under test, and nothing that was touched in the last two hours (another check may be using it)
+    ds = [os.path.join(base, d) for d in os.listdir(base) if d.startswith(f"wp-{build}-") and not d.endswith(src_hash())]
+    ds = [d for d in ds if time.time() - os.path.getmtime(d) > 7200]
     ds.sort(key=lambda d: os.path.getmtime(d), reverse=True)
     for d in ds[keep:]:
       shutil.rmtree(d, ignore_errors=True)
